@@ -158,9 +158,9 @@ def gen_type(rng, structs, enums, depth, profile):
         return ("u", gen_width(rng))
 
 
-def gen_enum(rng, name):
+def gen_enum(rng, name, max_bits=40):
     n = rng.randint(1, 5)
-    k = rng.randint(0, 40)
+    k = rng.randint(0, max_bits)
     top = rng.choice([2 ** k - 1, 2 ** k, 2 ** k + 1, rng.randint(0, 2 ** k)])
     top = max(top, 0)
     n = min(n, top + 1)
@@ -172,10 +172,10 @@ def gen_enum(rng, name):
     return {"name": name, "vals": [(f"V{i}", v) for i, v in enumerate(vals)]}
 
 
-def gen_desc(rng, profile="serde", nstructs=None, max_fields=6, depth=3):
+def gen_desc(rng, profile="serde", nstructs=None, max_fields=6, depth=3, max_enum_bits=40):
     desc = {"enums": [], "structs": [], "impls": []}
     for i in range(rng.randint(0, 3)):
-        desc["enums"].append(gen_enum(rng, f"E{i}"))
+        desc["enums"].append(gen_enum(rng, f"E{i}", max_enum_bits))
     enums = [e["name"] for e in desc["enums"]]
     ns = nstructs or rng.randint(1, 5)
     for i in range(ns):
